@@ -3,10 +3,15 @@ C06 — grouping and aggregation follow Spark semantics.
 
 proof      : lean/SqlframeModel/Props/C06.lean over the regenerated Gen.Group (tools/gen_c06.py), Gen.Methods, Gen.Operations
 tie        : (1) Gen regenerated from the working tree on every run; (2) the generated tables are compared with the running
-             code (shortcut names, count alias, cube's grouping sets, decorator tags); (3) correspondence stream: generated
+             code (shortcut names, count alias, cube's grouping sets, decorator tags, which classes of key expression reach
+             GROUP BY / a grouping set's tuple, the class of a key expression); (3) correspondence stream: generated
              chains  [where/select]* · grouping operation · [where/select | grouping operation]*  on real sqlframe + DuckDB
              vs Impl/C06Group.lean (model) vs the PySpark specification — df.columns and the bag of rows
-search     : the same stream compares the implementation with the specification directly; failures are shrunk
+             key sets: names, F.col, aliased expressions, aliased CONSTANTS (string / integer / Boolean / NULL literals,
+             constant expressions) alone, together and next to columns, empty; inputs incl. the empty table
+search     : the same stream compares the implementation with the specification directly; a bounded-exhaustive family
+             (every constant-key shape x every grouping operation x empty / non-empty input x re-aggregation) precedes the
+             random part; failures are shrunk
 """
 from __future__ import annotations
 
@@ -15,6 +20,7 @@ import json
 import os
 import random
 import re
+import subprocess
 import typing as t
 from fractions import Fraction
 
@@ -31,9 +37,12 @@ SOURCES = [
     "SqlframeModel/Lemmas/C06Group.lean",
     "SqlframeModel/Lemmas/C06Cube.lean",
     "SqlframeModel/Lemmas/C06DF.lean",
+    "SqlframeModel/Lemmas/C06Const.lean",
+    "SqlframeModel/Lemmas/C06Pos.lean",
     "SqlframeModel/Impl/C06Group.lean",
 ]
 
+ORACLE = os.path.join(vlib.VERIF, "tools", "oracle", "c06_pyspark.json")
 OP_NAMES = {"init": "INIT", "noOp": "NO_OP", "from_": "FROM", "wher": "WHERE", "groupBy": "GROUP_BY", "having": "HAVING", "select": "SELECT", "orderBy": "ORDER_BY", "limit": "LIMIT"}
 FNS = ["countStar", "count", "sum", "avg", "min", "max", "countDistinct"]
 SHORTCUTS = ["sum", "avg", "mean", "min", "max"]
@@ -43,6 +52,23 @@ KEY_COLS = ("k", "g", "Dept", "storeId")
 KEY_INTS = [None, None, 0, 1, 1, 2]
 VAL_INTS = [None, None, 0, 1, 2, 3, -1, 5]
 KEY_STRS = [None, "a", "a", "b"]
+
+# constant grouping keys: (expression, type of the output column).  Integer literals are a minority: on the pinned tree they
+# are emitted as `GROUP BY <n>`, which the engine reads as a select-list position (known finding H_intLiteralKey)
+CONST_KEYS: t.List[t.Tuple[t.Any, str]] = [
+    (("lit", "all"), "str"),
+    (("lit", ""), "str"),
+    (("lit", "a"), "str"),
+    (("lit", True), "bool"),
+    (("lit", False), "bool"),
+    (("lit", None), "opaque"),
+    (("bin", "add", ("lit", 1), ("lit", 1)), "int"),
+    (("bin", "gt", ("lit", 1), ("lit", 0)), "bool"),
+    (("lit", 1), "int"),
+    (("lit", 2), "int"),
+    (("lit", 7), "int"),
+    (("lit", 0), "int"),
+]
 
 Schema = t.List[t.Tuple[str, str]]  # ordered (name, type); type in int | str | bool | avg
 
@@ -127,6 +153,7 @@ def gen_select(rng: random.Random, schema: Schema) -> t.Tuple[dict, Schema]:
 def gen_keys(rng: random.Random, schema: Schema, allow_empty: bool = True, max_keys: int = 2) -> t.List[list]:
     """[(alias, expr, type, style)]; style 'name' = passed as a string, 'col' = F.col, 'expr' = aliased expression"""
     usable = [(c, ty) for c, ty in schema if ty in ("int", "str")]
+    const_rate = rng.choice([0.0, 0.0, 0.15, 0.3, 0.9])  # per call: no constants / some / (almost) only constants
     ints = [c for c, ty in usable if ty == "int"]
     n = rng.choice(([0] if allow_empty else []) + [1, 1, 1, 2, 2][: 3 + max_keys])
     keys: t.List[list] = []
@@ -134,7 +161,16 @@ def gen_keys(rng: random.Random, schema: Schema, allow_empty: bool = True, max_k
         used = [a for a, _, _, _ in keys]
         used_e = [e for _, e, _, _ in keys]
         c = rng.random()
-        if c < 0.6 or not ints:
+        if c < const_rate:
+            # a constant key (aliased): it does not split the rows, but the aggregate stays a *grouped* one
+            e, ty = rng.choice(CONST_KEYS[:8] * 3 + CONST_KEYS[8:])
+            pool = [a for a in ["c0", "c1", "scope"] if a not in used]
+            if rng.random() < 0.15:
+                pool = [col for col, _ in usable if col not in used] or pool  # the alias shadows an input column
+            if not pool or e in used_e:
+                continue
+            keys.append([rng.choice(pool), e, ty, "expr"])
+        elif c < 0.6 + const_rate * 0.4 or not ints:
             col, ty = rng.choice(usable)
             if col in used or ("col", col) in used_e:
                 continue
@@ -212,15 +248,23 @@ def gen_group(rng: random.Random, schema: Schema, stats: dict) -> t.Tuple[dict, 
         return {"k": "dfAgg", "aggs": [[n, e] for n, e, _ in aggs]}, [(n, ty) for n, _, ty in aggs]
     if kind == "cube":
         keys = gen_keys(rng, schema, allow_empty=False, max_keys=rng.choice([1, 2, 2, 3]))
-        keys = [k for k in keys if k[3] != "expr" or True]
+        if any(is_int_lit(k[1]) for k in keys) and any(k[3] == "expr" and not is_int_lit(k[1]) for k in keys):
+            # inside GROUPING SETS the engine treats a position that names a *non-column expression* of the select list as a
+            # grouping expression of its own (the select item is NULL in the sets that hold only the position); the model reads
+            # a position as the expression it names, which is exact for columns and for integer constants only.  Such
+            # programs are outside every theorem anyway (H_intLiteralKey); they are not generated.
+            keys = [k for k in keys if not is_int_lit(k[1])]
         if not keys:
             c, ty = next((c, ty) for c, ty in schema if ty in ("int", "str"))
             keys = [[c, ("col", c), ty, "name"]]
         aggs = [["count", ("agg", "countStar", ("lit", 1)), "int"]] if rng.random() < 0.5 and "count" not in [k[0] for k in keys] else gen_aggs(rng, schema, [k[0] for k in keys])
         step = {"k": "cube", "keys": [[n, e, st] for n, e, _, st in keys], "aggs": [[n, e] for n, e, _ in aggs], "via_count": aggs[0][0] == "count" and len(aggs) == 1}
+        label = "cube:" + "+".join(sorted({key_style(k) for k in keys}))
+        stats["key_styles"][label] = stats["key_styles"].get(label, 0) + 1
         return step, [(n, ty) for n, _, ty, _ in keys] + [(n, ty) for n, _, ty in aggs]
     keys = gen_keys(rng, schema)
-    stats["key_styles"]["empty" if not keys else "+".join(sorted({k[3] for k in keys}))] = stats["key_styles"].get("empty" if not keys else "+".join(sorted({k[3] for k in keys})), 0) + 1
+    label = "empty" if not keys else "+".join(sorted({key_style(k) for k in keys}))
+    stats["key_styles"][label] = stats["key_styles"].get(label, 0) + 1
     kschema = [(n, ty) for n, _, ty, _ in keys]
     kj = [[n, e, st] for n, e, _, st in keys]
     if kind == "count":
@@ -243,6 +287,27 @@ def gen_group(rng: random.Random, schema: Schema, stats: dict) -> t.Tuple[dict, 
         for f in agg_fns(e):
             stats["fns"][f] = stats["fns"].get(f, 0) + 1
     return {"k": "groupAgg", "keys": kj, "aggs": [[n, e] for n, e, _ in aggs]}, kschema + [(n, ty) for n, _, ty in aggs]
+
+
+def expr_refs(e: t.Any) -> t.List[str]:
+    e = tuple_(e)
+    if e[0] == "col":
+        return [e[1]]
+    if e[0] == "lit":
+        return []
+    return [n for x in e[1:] if isinstance(x, tuple) for n in expr_refs(x)]
+
+
+def is_int_lit(e: t.Any) -> bool:
+    e = tuple_(e)
+    return e[0] == "lit" and isinstance(e[1], int) and not isinstance(e[1], bool)
+
+
+def key_style(k: list) -> str:
+    """'name' | 'col' | 'expr' | 'const' (no column reference) | 'intlit' (an integer literal)"""
+    if is_int_lit(k[1]):
+        return "intlit"
+    return "const" if not expr_refs(k[1]) else k[-1]
 
 
 def agg_fns(e: t.Any) -> t.List[str]:
@@ -273,6 +338,9 @@ def gen_case(rng: random.Random, stats: dict) -> dict:
             side, _ = gen_group(rng, schema, tmp_stats)
             if side["k"] == "cube" or rng.random() < 0.25:
                 break
+        if "keys" in side and any(is_int_lit(k[1]) for k in side["keys"]):
+            # an integer-literal key would make the discarded call itself fail (H_intLiteralKey); that is not what a side call probes
+            side = dict(side, keys=[k for k in side["keys"] if not is_int_lit(k[1])] or ([[schema[0][0], ("col", schema[0][0]), "name"]] if side["k"] == "cube" else []))
         steps.append({"k": "side", "op": side, "collect": rng.random() < 0.5})
         stats["side_calls"] = stats.get("side_calls", 0) + 1
         if rng.random() < 0.15:
@@ -528,8 +596,19 @@ def same(a: dict, b: dict) -> bool:
     return a["cols"] == b["cols"] and bag(a["rows"]) == bag(b["rows"])
 
 
-def evaluate(cases: t.List[dict], workers: int = 0) -> t.List[dict]:
-    outs = vlib.run_driver("C06", [case_to_lean(i, c) for i, c in enumerate(cases)])
+def engine_rejects(impl: dict) -> bool:
+    """error enum: the engine refused to bind the statement (the only error the model predicts)"""
+    return "err" in impl and impl["err"].startswith("BinderException")
+
+
+def evaluate(cases: t.List[dict], workers: int = 0, driver_only: t.Optional[t.List[dict]] = None, driver_only_outs: t.Optional[list] = None) -> t.List[dict]:
+    """`driver_only`: further programs sent to the Lean driver in the same invocation (not run on the implementation);
+    their outputs are appended to `driver_only_outs`"""
+    extra = driver_only or []
+    outs = vlib.run_driver("C06", [case_to_lean(i, c) for i, c in enumerate(cases + extra)])
+    if driver_only_outs is not None:
+        driver_only_outs.extend(outs[len(cases):])
+    outs = outs[: len(cases)]
     impls = vlib.parallel_map(run_impl, cases, workers)
     res = []
     for c, o, impl in zip(cases, outs, impls):
@@ -544,7 +623,8 @@ def evaluate(cases: t.List[dict], workers: int = 0) -> t.List[dict]:
                 "spec": spec,
                 "scope": o["scope"],
                 "wf": o["wf"],
-                "impl_eq_model": same(impl, model),
+                "model_err": bool(o.get("modelErr")),
+                "impl_eq_model": engine_rejects(impl) if o.get("modelErr") else same(impl, model),
                 "impl_eq_spec": same(impl, spec),
             }
         )
@@ -554,6 +634,15 @@ def evaluate(cases: t.List[dict], workers: int = 0) -> t.List[dict]:
 # ------------------------------------------------------------------------------------------------
 # the generated decisions vs the running code
 # ------------------------------------------------------------------------------------------------
+
+
+# mirrored in lean/Driver/C06.lean `keyClassProbes` (same order)
+KEY_CLASS_PROBES: t.List[t.Any] = [
+    ("lit", "a"), ("lit", ""), ("lit", 1), ("lit", 0), ("lit", -1), ("lit", True), ("lit", False), ("lit", None),
+    ("col", "k"), ("bin", "add", ("lit", 1), ("lit", 1)), ("bin", "add", ("col", "k"), ("lit", 1)), ("bin", "gt", ("col", "k"), ("lit", 0)),
+    ("isNull", ("col", "k")), ("neg", ("col", "k")), ("not", ("bin", "gt", ("col", "k"), ("lit", 0))),
+    ("ite", ("bin", "gt", ("col", "k"), ("lit", 0)), ("lit", 1), ("lit", 2)),
+]
 
 
 def exercise_gen(ctx: Ctx) -> t.Dict[str, t.Any]:
@@ -588,6 +677,42 @@ def exercise_gen(ctx: Ctx) -> t.Dict[str, t.Any]:
     if live_sets != gen["cubeSets3"]:
         problems.append(f"Gen.cubeSets on 3 keys = {gen['cubeSets3']} but the running code enumerates {live_sets}")
 
+    # which classes of key expression reach GROUP BY / the tuple of a grouping set, and the class of a key expression
+    from sqlglot import exp as sg
+
+    def live_class(ce: t.Any) -> str:
+        if isinstance(ce, sg.Literal):
+            return "strLit" if ce.is_string else "numLit"
+        for cls, nm in ((sg.Boolean, "boolLit"), (sg.Null, "nullLit"), (sg.Column, "column")):
+            if isinstance(ce, cls):
+                return nm
+        return "other"
+
+    got = [c.split(".")[-1] for c in gen["keyClassProbes"]]
+    want = [live_class(X.to_column(e, F).alias("z").column_expression) for e in KEY_CLASS_PROBES]
+    if got != want:
+        bad = [(X.show(e), g, w) for e, g, w in zip(KEY_CLASS_PROBES, got, want) if g != w] or [("probe lists differ in length", len(got), len(want))]
+        problems.append(f"Impl keyClass disagrees with sqlglot's class of the key expression: {bad[:3]}")
+    reps = {"strLit": ("lit", "a"), "numLit": ("lit", 1), "boolLit": ("lit", True), "nullLit": ("lit", None), "column": ("col", "k"), "other": ("bin", "add", ("col", "k"), ("lit", 1))}
+    for table_name, build in (("groupByKeeps", lambda key: df.groupBy(key)), ("groupingSetKeeps", lambda key: df.cube(key))):
+        tab = {c.split(".")[-1]: v == "true" for c, v in gen[table_name]}
+        if sorted(tab) != sorted(reps):
+            problems.append(f"Gen.{table_name} lists classes {sorted(tab)}")
+            continue
+        for cls, e in reps.items():
+            try:
+                grp = build(X.to_column(e, F).alias("z")).agg(F.count("*").alias("n")).expression.args.get("group")
+                if table_name == "groupByKeeps":
+                    live_keeps = bool(grp and grp.expressions)
+                else:
+                    first = grp.args["grouping_sets"][0].expressions[0]  # the full key set comes first
+                    live_keeps = bool(first.expressions)
+            except Exception as ex:  # noqa
+                problems.append(f"{table_name}: building the statement for a {cls} key raised {type(ex).__name__}")
+                continue
+            if live_keeps != tab[cls]:
+                problems.append(f"Gen.{table_name} {cls} = {tab[cls]} but the running code {'keeps' if live_keeps else 'drops'} such a key")
+
     def tag_of(txt: str) -> t.Optional[str]:
         m = re.search(r"Op\.(\w+)", txt)
         return OP_NAMES.get(m.group(1)) if m else None
@@ -599,7 +724,49 @@ def exercise_gen(ctx: Ctx) -> t.Dict[str, t.Any]:
         problems.append(f"Gen.tag_cube = {gen['cubeTag']} but cube is {'decorated' if hasattr(BaseDataFrame.cube, '__wrapped__') else 'undecorated'}")
     for pb in problems[:3]:
         ctx.broken.append("translator vs running code: " + pb)
-    return {"gen_shortcut_table": gen["shortcutTable"], "gen_cube_sets_3": gen["cubeSets3"], "gen_problems": len(problems)}
+    return {"gen_shortcut_table": gen["shortcutTable"], "gen_cube_sets_3": gen["cubeSets3"], "gen_group_by_keeps": gen["groupByKeeps"], "gen_grouping_set_keeps": gen["groupingSetKeeps"], "gen_problems": len(problems)}
+
+
+# ------------------------------------------------------------------------------------------------
+# comparison C: PySpark vs the specification (recorded; live JVM in the thorough tier)
+# ------------------------------------------------------------------------------------------------
+
+
+def oracle_cases() -> t.List[dict]:
+    if not os.path.exists(ORACLE):
+        return []
+    return json.load(open(ORACLE))["cases"]
+
+
+def spec_vs_pyspark(ctx: Ctx, cases: t.List[dict], answers: t.List[dict], what: str, outs: t.Optional[list] = None) -> t.Tuple[int, int]:
+    """the Lean specification must reproduce what PySpark returned for every program"""
+    if outs is None:
+        outs = vlib.run_driver("C06", [case_to_lean(i, c) for i, c in enumerate(cases)])
+    bad = []
+    for c, o, a in zip(cases, outs, answers):
+        if "err" in o or not o.get("wf"):
+            bad.append((c, a, o))
+            continue
+        if not same(canon_table(o["spec"]), a):  # PySpark's rows were canonicalised when they were recorded
+            bad.append((c, a, o["spec"]))
+    if bad:
+        c, a, got = bad[0]
+        ctx.broken.append(f"comparison C: the specification differs from {what} PySpark on {len(bad)} of {len(cases)} programs, first: {show_case(c)} pyspark={json.dumps(a)[:200]} spec={json.dumps(got)[:200]}")
+    return len(cases), len(cases) - len(bad)
+
+
+def live_pyspark(cases: t.List[dict], timeout: int = 900) -> t.Optional[t.List[dict]]:
+    script = os.path.join(vlib.VERIF, "tools", "oracle", "mk_c06_pyspark.py")
+    env = dict(os.environ, PYSPARK_PYTHON="/venv/bin/python")
+    try:
+        p = subprocess.run(["/venv/bin/python", script, "--stdin"], input=json.dumps(cases), capture_output=True, text=True, timeout=timeout, env=env)
+        if p.returncode != 0:
+            log("live PySpark failed:", p.stderr[-400:])
+            return None
+        return json.loads(p.stdout.strip().split("\n")[-1])
+    except Exception as e:  # noqa
+        log("live PySpark unavailable:", e)
+        return None
 
 
 # ------------------------------------------------------------------------------------------------
@@ -713,6 +880,44 @@ def hand_cases() -> t.List[dict]:
     return out
 
 
+def const_key_cases() -> t.List[dict]:
+    """bounded-exhaustive: every shape of constant key set x every grouping operation x non-empty / empty input, and the
+    result re-aggregated (the number of groups).  A constant key never splits the rows, but the aggregate stays grouped:
+    no row over an empty input."""
+    sch = [["k", "int"], ["x", "int"], ["s", "str"]]
+    rows = [[1, 2, "a"], [1, None, "b"], [None, 5, None], [2, None, "a"]]
+    cnt = ["n", ("agg", "countStar", ("lit", 1))]
+    tot = ["t", ("agg", "sum", ("col", "x"))]
+
+    def C(alias: str, e: t.Any) -> list:
+        return [alias, e, "expr"]
+
+    consts = [("lit", "all"), ("lit", ""), ("lit", True), ("lit", None), ("bin", "add", ("lit", 1), ("lit", 1)), ("lit", 1), ("lit", 7)]
+    keysets = [[C("c0", e)] for e in consts]
+    keysets += [[C("c0", ("lit", "all")), C("c1", ("lit", True))], [C("c0", ("lit", "all")), C("c1", ("lit", 2))], [C("c0", ("lit", 2)), C("c1", ("lit", 1))]]
+    keysets += [[["k", ("col", "k"), "name"], C("c0", e)] for e in (("lit", "all"), ("lit", None), ("lit", 2), ("lit", 3))]
+    keysets += [[C("c0", e), ["k", ("col", "k"), "col"]] for e in (("lit", "all"), ("lit", 1), ("lit", 2))]
+    none_left = {"k": "where", "p": ("bin", "gt", ("col", "x"), ("lit", 100))}
+    regroup = {"k": "dfAgg", "aggs": [["groups", ("agg", "countStar", ("lit", 1))], ["m", ("agg", "max", ("col", "n"))]]}
+    out = []
+    for keys in keysets:
+        ops = [
+            {"k": "groupAgg", "keys": keys, "aggs": [cnt, tot]},
+            {"k": "count", "keys": keys},
+            {"k": "shortcut", "keys": keys, "m": "max", "cols": ["x"]},
+            {"k": "cube", "keys": keys, "aggs": [cnt]},
+        ]
+        for op in ops:
+            for rws in (rows, []):
+                out.append({"schema": sch, "rows": rws, "steps": [op]})
+        out.append({"schema": sch, "rows": rows, "steps": [none_left, ops[0]]})
+        for rws in (rows, []):
+            out.append({"schema": sch, "rows": rws, "steps": [ops[0], regroup]})
+    for c in out:
+        c["origin"] = "const-keys"
+    return out
+
+
 def cases_for(ctx: Ctx, stats: dict) -> t.List[dict]:
     cases: t.List[dict] = []
     corpus_dir = os.path.join(vlib.VERIF, "corpus", ID)
@@ -724,6 +929,7 @@ def cases_for(ctx: Ctx, stats: dict) -> t.List[dict]:
                 c["origin"] = "corpus:" + fn
                 cases.append(c)
     cases += hand_cases()
+    cases += const_key_cases()
     n = 4000 if ctx.thorough else 600
     for _ in range(n):
         c = gen_case(ctx.rng, stats)
@@ -733,7 +939,15 @@ def cases_for(ctx: Ctx, stats: dict) -> t.List[dict]:
 
 
 def is_known(r: dict, known: t.Dict[str, dict]) -> bool:
-    return bool(r["scope"]) and all(h in known for h in r["scope"]) and r["impl_eq_model"]
+    """a failing case is excused only if the model predicts exactly what the implementation did, every violated scope
+    hypothesis is an open known finding, and the failure is of the kind the hypothesis describes: outside cube an integer
+    literal key makes the engine reject the statement (it never changes the rows silently)"""
+    if not (bool(r["scope"]) and all(h in known for h in r["scope"]) and r["impl_eq_model"]):
+        return False
+    if r["scope"] == ["H_intLiteralKey"]:
+        cube_with_int = any(s["k"] == "cube" and any(is_int_lit(k[1]) for k in s["keys"]) for s in r["case"]["steps"])
+        return cube_with_int or engine_rejects(r["impl"])
+    return True
 
 
 def run(ctx: Ctx) -> None:
@@ -749,7 +963,26 @@ def run(ctx: Ctx) -> None:
 
     stats: t.Dict[str, t.Any] = {"ops": {}, "fns": {}, "key_styles": {}, "post": {"where": 0, "select": 0, "group": 0}}
     cases = cases_for(ctx, stats)
-    res = evaluate(cases)
+    oc = oracle_cases()
+    oc_outs: t.List[dict] = []
+    res = evaluate(cases, driver_only=oc, driver_only_outs=oc_outs)
+
+    # comparison C: the specification against PySpark's recorded answers; thorough: against the live JVM as well
+    n_oracle = n_oracle_ok = n_live = n_live_ok = 0
+    if not oc:
+        ctx.broken.append("comparison C: PySpark oracle file tools/oracle/c06_pyspark.json missing or empty")
+    else:
+        n_oracle, n_oracle_ok = spec_vs_pyspark(ctx, oc, [c["pyspark"] for c in oc], "recorded", outs=oc_outs)
+    if ctx.thorough:
+        plain_case = lambda c: {"schema": c["schema"], "rows": c["rows"], "steps": c["steps"]}  # noqa: E731
+        rnd = [c for c in cases if c.get("origin") == "random"]
+        consty = [c for c in rnd if any(key_style(k) in ("const", "intlit") for s in c["steps"] for k in s.get("keys", []))]
+        sample = [plain_case(c) for c in const_key_cases()[::2] + consty[:60] + rnd[:60]]
+        answers = live_pyspark(sample)
+        if answers is None:
+            log("C06: live PySpark not available; the recorded answers stand in")
+        else:
+            n_live, n_live_ok = spec_vs_pyspark(ctx, sample, answers, "live")
 
     not_wf = [r for r in res if not r["wf"]]
     if not_wf:
@@ -767,11 +1000,9 @@ def run(ctx: Ctx) -> None:
         else:
             new_viol.append(r)
     for h, e in known.items():
-        w = e.get("witness")
-        if isinstance(w, dict) and "steps" in w:
-            r = evaluate([w], workers=1)[0]
-            if not r["impl_eq_spec"]:
-                vlib.report_known(ctx, e, e["summary"])
+        ws = [w for kk, w in e.items() if kk.startswith("witness") and isinstance(w, dict) and "steps" in w]
+        if ws and any(not r["impl_eq_spec"] for r in evaluate(ws, workers=1)):
+            vlib.report_known(ctx, e, e["summary"])
     if model_mismatch:
         ctx.broken.append(f"correspondence stream A (implementation vs Impl/C06Group.lean): {len(model_mismatch)} of {len(res)} cases differ")
 
@@ -849,6 +1080,15 @@ def run(ctx: Ctx) -> None:
             "cases_reusing_the_receiver_after_a_grouped_call": sum(1 for r in res if any(s["k"] == "side" for s in r["case"]["steps"])),
             "cases_with_capitalised_column_names": sum(1 for r in res if any(n != n.lower() for n, _ in r["case"]["schema"])),
             "results_with_null_aggregates": n_allnull,
+            "pyspark_recorded_programs": n_oracle,
+            "pyspark_recorded_agree_with_spec": n_oracle_ok,
+            "pyspark_live_programs": n_live,
+            "pyspark_live_agree_with_spec": n_live_ok,
+            "cases_with_constant_keys": sum(1 for r in res if any(key_style(k) in ("const", "intlit") for s in r["case"]["steps"] for k in s.get("keys", []))),
+            "cases_with_only_constant_keys_on_empty_input": sum(
+                1 for r in res if "err" not in r["spec"] and any(s.get("keys") and all(key_style(k) in ("const", "intlit") for k in s["keys"]) for s in r["case"]["steps"]) and not r["spec"]["rows"]
+            ),
+            "failing_cases_excused_per_known_finding": {h: sum(1 for r in spec_mismatch if h in r["scope"] and is_known(r, known)) for h in known},
             "samples": [{"program": show_case(r["case"]), "result": r["impl"]} for r in res[:: max(1, len(res) // 4)][:4]],
             **gen_cov,
         }
@@ -858,6 +1098,7 @@ def run(ctx: Ctx) -> None:
         "PySpark's meaning of groupBy().agg / shortcuts / DataFrame.agg / cube is `aggSpec` / `cubeSpec`, shortcut names `fn(col)`, `count` (validated against live PySpark 3.5.9 during construction)",
         "avg is an exact rational in the model; the engine's DOUBLE is compared as a fraction with denominator <= 10^6",
         "the open aggregate block after `agg` is represented by its value under an identity projection (later operations either freeze it or append ORDER BY / LIMIT)",
+        "an integer constant in GROUP BY / in a grouping set is a 1-based position in the select list (`groupByTerm`): validated on every generated case with an integer-literal key (rejections included); inside GROUPING SETS only for positions that name a column or an integer constant (a position naming another expression is a separate grouping expression in DuckDB: not modelled, not generated)",
         "multi-column count_distinct counts distinct all-non-NULL tuples (C06_count_distinct_n); not modelled: multi-entry dict form of agg, GROUPING_ID expansion, un-aliased expression keys / aggregates (their *names* belong to C10)",
     ]
 
